@@ -55,6 +55,23 @@ FRAMES = [
          modifies=["equations"],      # the edit dictionary handed in loses its 'add' entry (equations.pop('add', [])): the caller's object, not the template
          callees={"_update_equation": S_PURE_FRESH, "_update_variables": S_SHALLOW}),
     dict(name="_update_variables", props=["C14", "C15"], target=f"{OPER}::_update_variables", modifies=[], result_not_aliasing=[]),
+    # ------------------------------------------------------------------------------------------------ C14: compile / simulate a copy
+    # run / get_run_func / get_jacobian_func with in_place=False work on a deep copy; the only things written to `self` are the three
+    # bookkeeping fields (the state layout, the state values and the handle of the compiled network) — nodes, edges, circuits, templates
+    # and every argument stay untouched.  (That these fields ARE written is the root of a listed known finding; the contract pins down
+    # that nothing else is.)
+] + [
+    dict(name=f"CircuitTemplate.{nm}[in_place=False]", props=["C14"], target=f"{CIRC}::CircuitTemplate.{nm}",
+         modifies=["self._state_var_indices", "self._state_var_values", "self._ir"], const_params={"in_place": False},
+         callees={"is_integration_adaptive": S_PURE_FRESH, "*._add_input": S_PURE_FRESH, "*._validate_backend_args": S_PURE_FRESH,
+                  "*.apply": dict(mutates=["self"], returns="fresh"), "*.get_var": dict(mutates=[], returns="receiver"),
+                  "*.set_value": dict(mutates=["self"], returns="fresh"), "*.get_run_func": dict(mutates=["self"], returns="fresh"),
+                  "*.get_jacobian_func": dict(mutates=["self"], returns="fresh"), "*.get_frontend_varname": S_PURE_FRESH,
+                  "*.get_variable_positions": S_PURE_FRESH, "*.run": dict(mutates=["self"], returns="fresh"),
+                  "np.diff": S_PURE_FRESH, "np.round": S_PURE_FRESH, "np.linspace": S_PURE_FRESH, "np.interp": S_PURE_FRESH, "np.stack": S_PURE_FRESH,
+                  "np.asarray": S_PURE_FRESH, "np.squeeze": S_PURE_FRESH, "np.reshape": S_PURE_FRESH, "MultiIndex.from_tuples": S_PURE_FRESH})
+    for nm in ("run", "get_run_func", "get_jacobian_func")
+] + [
     # ------------------------------------------------------------------------------------------------ C07
     dict(name="OperatorGraphTemplate.apply", props=["C07", "C14"], target=f"{OPG}::OperatorGraphTemplate.apply", modifies=[],
          callees={"*.apply": dict(mutates=["values"], returns="alias"), "self.target_ir": dict(mutates=[], returns="shallow")}),
